@@ -26,6 +26,7 @@ HF == INSTANCE HproseFormat
 DInt == {"int8", "int16", "int32", "int64", "int", "uint8", "uint16", "uint32", "uint64", "uint", "myint"}
 DFloat == {"float32", "float64"}
 DStr == {"string", "mystring"}
+DIface == {"iface", "iface_opts"}     \* iface_opts: interface{} with ListTypeSlice and StructTypeValue
 DSlice == {"slice_int", "slice_string", "slice_iface", "array2_int"}
 DMap == {"map_string_int", "map_string_iface"}
 DMapIdx == {"map_int_slice_int", "map_int_map_string_int"}   \* a list decodes into an int-keyed map: index -> element
@@ -62,23 +63,23 @@ Expect(s) ==
             ELSE IF d = "float32" THEN (IF f.f32exact THEN "value" ELSE "unspec")
             ELSE IF d = "float64" THEN (IF f.f64exact THEN "value" ELSE "unspec")
             ELSE IF d \in DStr \cup {"bigint", "bigrat"} THEN "value"
-            ELSE IF d = "iface" THEN (IF f.fits["int"] THEN "value" ELSE "unspec")
+            ELSE IF d \in DIface THEN (IF f.fits["int"] THEN "value" ELSE "unspec")
             ELSE IF d \in {"bytes", "guid"} \cup DCont THEN "error"
             ELSE "unspec"        \* incl. time: the library reads a number as nanoseconds since the epoch
       [] k = "real" ->
             IF s.w.cls = "fin"
-            THEN IF d = "float64" \/ d = "iface" THEN "value"
+            THEN IF d = "float64" \/ d \in DIface THEN "value"
                  ELSE IF d = "float32" THEN (IF f.f32exact THEN "value" ELSE "unspec")
                  ELSE IF d \in DInt THEN (IF f.integral THEN (IF fitsd THEN "value" ELSE "error") ELSE "unspec")
                  ELSE IF d \in {"bytes", "guid"} \cup DCont THEN "error"
                  ELSE "unspec"
-            ELSE IF d \in DFloat \cup {"iface"} THEN "value"
+            ELSE IF d \in DFloat \cup DIface THEN "value"
                  ELSE IF d \in {"bytes", "guid"} \cup DCont THEN "error" ELSE "unspec"
-      [] k = "bool" -> IF d \in {"bool", "iface"} THEN "value"
+      [] k = "bool" -> IF d \in {"bool"} \cup DIface THEN "value"
                        ELSE IF d \in {"bytes", "guid"} \cup DCont THEN "error" ELSE "unspec"
-      [] k = "nil" -> IF d = "iface" THEN "value" ELSE "unspec"
+      [] k = "nil" -> IF d \in DIface THEN "value" ELSE "unspec"
       [] k = "str" ->
-            IF d \in DStr \cup {"bytes", "iface"} THEN "value"
+            IF d \in DStr \cup {"bytes"} \cup DIface THEN "value"
             ELSE IF s.w.s = "" THEN "unspec"      \* the empty string reads as the zero value of any type
             ELSE IF d \in DInt THEN (IF f.dec # "" THEN (IF fitsd THEN "value" ELSE "error") ELSE "error")
             ELSE IF d = "bigint" THEN (IF f.dec # "" THEN "value" ELSE "error")
@@ -86,14 +87,14 @@ Expect(s) ==
             ELSE IF d \in DMap \cup DPlain THEN "error"
             ELSE "unspec"
       [] k = "bytes" ->
-            IF d \in {"bytes", "iface"} THEN "value"
+            IF d \in {"bytes"} \cup DIface THEN "value"
             ELSE IF d \in DStr THEN (IF f.validutf8 THEN "value" ELSE "unspec")
             ELSE IF d \in DMap \cup DPlain THEN "error"
             ELSE "unspec"
       [] k = "dt" -> IF d = "time" THEN "value" ELSE IF d \in DCont THEN "error" ELSE "unspec"
-      [] k = "guid" -> IF d \in {"guid", "iface"} THEN "value" ELSE IF d \in DCont THEN "error" ELSE "unspec"
+      [] k = "guid" -> IF d \in {"guid"} \cup DIface THEN "value" ELSE IF d \in DCont THEN "error" ELSE "unspec"
       [] k = "list" ->
-            IF d \in {"slice_iface", "iface"} THEN "value"
+            IF d \in {"slice_iface"} \cup DIface THEN "value"
             ELSE IF d = "slice_int" THEN (IF AllItems(s, s.w, "int") THEN "value" ELSE "unspec")
             ELSE IF d = "slice_string" THEN (IF AllItems(s, s.w, "str") THEN "value" ELSE "unspec")
             ELSE IF d = "array2_int" THEN (IF AllItems(s, s.w, "int") /\ Len(NodeOf(s, s.w).items) = 2 THEN "value" ELSE "unspec")
@@ -107,7 +108,7 @@ Expect(s) ==
             ELSE IF d \in DMap \cup {"bytes", "complex128"} THEN "unspec"   \* a 2-list is how a complex number travels
             ELSE "error"
       [] k = "map" ->
-            IF d = "iface" THEN "value"
+            IF d \in DIface THEN "value"
             ELSE IF d = "map_string_iface" THEN (IF KeysStr(s, s.w) THEN "value" ELSE "unspec")
             ELSE IF d = "map_string_int" THEN (IF KeysStr(s, s.w) /\ ValsInt(s, s.w) THEN "value" ELSE "unspec")
             ELSE IF d \in DPlain THEN (IF KeysStr(s, s.w) /\ NaturalPlain(s) THEN "value" ELSE "unspec")
@@ -116,7 +117,7 @@ Expect(s) ==
       [] k = "obj" ->
             IF d \in DPlain THEN (IF NodeOf(s, s.w).name = PlainName /\ NaturalPlain(s) THEN "value" ELSE "unspec")
             ELSE IF d = "map_string_iface" THEN "value"
-            ELSE IF d \in {"iface", "map_string_int"} \cup DSlice \cup DMapIdx THEN "unspec"
+            ELSE IF d \in {"map_string_int"} \cup DIface \cup DSlice \cup DMapIdx THEN "unspec"
             ELSE "error"
       [] OTHER -> "unspec"
 
